@@ -30,7 +30,7 @@ JSTEPS = {"ok": ["JMark", "JUnpid", "JExit"], "fail": ["JMark", "JUnpid", "JExit
 class Orphan:
     """What the first run left: a job directory with a pid file naming a live process that is not our child"""
 
-    def __init__(self, h, n, outcome, start):
+    def __init__(self, h, n, outcome, start, stopped=False):
         task, ident = h.ids[n]
         self.dir = h.wd / "jobs" / task / ident
         name = task.rsplit(".", 1)[-1]
@@ -47,6 +47,14 @@ class Orphan:
             self.sh = subprocess.Popen(["sh", "-c", "sleep 600 >/dev/null 2>&1 & echo $!; wait"], stdout=subprocess.PIPE, text=True)
             self.pid = int(self.sh.stdout.readline())
             self.pidf.write_text(json.dumps({"type": "local", "pid": self.pid}))
+            if stopped:
+                # the orphan is suspended (SIGSTOP, a debugger, a frozen cgroup): it exists, it holds what it holds, it will go on
+                os.kill(self.pid, signal.SIGSTOP)
+                t0 = time.time()
+                import psutil
+
+                while psutil.Process(self.pid).status() != psutil.STATUS_STOPPED and time.time() - t0 < 5:
+                    time.sleep(0.005)
         if start == "gone":
             if outcome == "killed":
                 self.step("JKilled")
@@ -215,7 +223,7 @@ def one(case):
     obs = {"case": case}
     try:
         h.run("x", ["1"], "ok")                       # the first run (its job is made an orphan below)
-        o = Orphan(h, "1", case["out"], case["start"])
+        o = Orphan(h, "1", case["out"], case["start"], case.get("stopped", False))
         starts = []
         conn = h.launcher.connector
         pb = conn.processbuilder
@@ -313,7 +321,8 @@ def judge(obs, want=None):
     """-> list of (clause, text): the invariants of XpmAdopt on the real observables"""
     c = obs["case"]
     bad = []
-    what = f"orphan ending '{c['out']}' ({'still running' if c['start'] == 'run' else 'already ended'} when the experiment is run again), its steps placed {describe(c['plan'])}"
+    what = (f"orphan ending '{c['out']}' ({('suspended' if c.get('stopped') else 'still running') if c['start'] == 'run' else 'already ended'} "
+            f"when the experiment is run again), its steps placed {describe(c['plan'])}")
     if obs.get("hang"):
         bad.append(("hang", f"{what}: the experiment never ends"))
     if obs.get("crash") or obs.get("exc"):
